@@ -169,6 +169,9 @@ func Harness_C20_lastCloseLeavesNothing() { shutdownEndsFeeds(false, false) }
 // afterShutdown: nothing is left running or locked.
 func (le *lifeEnv) afterShutdown(what string) {
 	verifAssert(verifLiveThreads() == 0, what+": no goroutine is left running or blocked once the store is shut down")
+	// the bucket's own lock is free too: closing the remaining handles returns
+	le.h1.Close(context.Background())
+	le.h2.Close(context.Background())
 	// locks are free: the registry and a fresh bucket are usable
 	b, err := OpenBucket(InMemoryURL, "other", CreateOrOpen)
 	verifAssert(err == nil, what+": other buckets can still be opened (no lock left held)")
@@ -291,6 +294,9 @@ func Harness_C20_lastCloseVsExpiryTimer() {
 // resumed delivers, over both runs, the final version of every document.
 func Harness_C15_stopResume() {
 	le := lifeBegin(true)
+	// a clock that stands still: consecutive writes get consecutive CAS values (the
+	// case in which an off-by-one in the resume point skips a mutation)
+	hlc.clock = &verifStuckClock{}
 	ctx := context.Background()
 	term := make(chan bool)
 	args := sgbucket.FeedArguments{ID: "f", Backfill: sgbucket.FeedResume, CheckpointPrefix: "cp", Terminator: term}
@@ -333,4 +339,31 @@ func Harness_C15_stopResume() {
 	close(term2)
 	verifJoin()
 	verifReach("done")
+}
+
+type verifStuckClock struct{}
+
+func (*verifStuckClock) getTime() uint64 { return 1 << 20 }
+
+// Close of a handle racing StartDCPFeed through the same handle
+func Harness_C20_closeVsFeedStartSameHandle() {
+	le := lifeBegin(true)
+	ctx := context.Background()
+	var ferr error
+	verifExplore(verifPreemptions())
+	go func() {
+		ferr = le.c2.StartDCPFeed(ctx, sgbucket.FeedArguments{ID: "f", Backfill: 0}, le.callback, nil)
+	}()
+	go func() { le.h2.Close(ctx) }()
+	verifJoin()
+	if ferr == nil {
+		verifReach("feed-started")
+	} else {
+		verifReach("feed-refused")
+	}
+	// the other handle keeps working, and nothing is left locked
+	verifAssert(verifProbe(le.h1, "x") == nil, "close vs feed start: the other handle keeps working (no lock left held)")
+	verifAssert(le.h1.CloseAndDelete(ctx) == nil, "close vs feed start: the bucket can still be deleted")
+	verifJoin()
+	le.afterShutdown("close vs feed start")
 }
